@@ -53,7 +53,7 @@ def run(tier):
     res.assumptions = ASSUME
     for prods, rows, cap0, mx in ([("{1}", 3, 2, 4), ("{1, 2}", 2, 1, 3)] if quick else [("{1}", 4, 2, 6), ("{1, 2}", 2, 1, 3), ("{1, 2}", 2, 2, 4), ("{1, 2, 3}", 1, 1, 2)]):
         kd = vlib.known_devs("C19")
-        invs = "NoDup CapWithinMax Conservation NoOrphan" + ("" if "ExpansionReordersRows" in kd else " PerProducerOrder")
+        invs = "NoDup CapWithinMax Conservation NoOrphan EarlyBound" + ("" if "ExpansionReordersRows" in kd else " PerProducerOrder")
         cfg = "SPECIFICATION Spec\nCONSTANTS Producers = %s RowsPer = %d Cap0 = %d MaxCap = %d Inc = 1 Emit = FALSE\nINVARIANTS %s\nVIEW View\nCHECK_DEADLOCK FALSE\n" % (prods, rows, cap0, mx, invs)
         seqfam.model(res, PIPE, "Ingest", cfg, "Ingest", {"Producers": prods, "RowsPer": rows, "Cap0": cap0, "MaxCap": mx}, timeout=1200)
     return res.finish()
